@@ -35,6 +35,7 @@ class PoolStats:
         self.out_of_order = 0
         self.input_errors = 0
         self.task_errors = 0
+        self.async_jobs = 0
 
 
 class SimPool:
@@ -45,6 +46,7 @@ class SimPool:
             raise ValueError("Number of processes must be at least 1")
         self.context = context
         self.state = "RUN"
+        self._pending = []
         sim.stats.pools += 1
         if initializer is not None:
             # every worker process unpickles (spawn) and runs the initializer once
@@ -71,6 +73,7 @@ class SimPool:
     def join(self):
         if self.state == "RUN":
             raise ValueError("Pool is still running")
+        self._drain()
 
     def imap(self, func, iterable, chunksize=1):
         return self._imap(func, iterable, chunksize, True)
@@ -81,14 +84,59 @@ class SimPool:
     def map(self, func, iterable, chunksize=None):
         return list(self._imap(func, iterable, chunksize or 1, True))
 
+    def starmap(self, func, iterable, chunksize=None):
+        return list(self._imap(func, iterable, chunksize or 1, True, star=True))
+
+    def apply(self, func, args=(), kwds={}):
+        return self.apply_async(func, args, kwds).get()
+
+    # --- asynchronous results: a submitted job runs when the tape picks it among those pending, at the
+    # latest when somebody waits for it (get / wait / close + join)
+    def apply_async(self, func, args=(), kwds={}, callback=None, error_callback=None):
+        if self.state != "RUN":
+            raise ValueError("Pool not running")
+        wfunc, wargs, wkw = _rt(func), _rt(tuple(args)), _rt(dict(kwds))
+        return self._submit(lambda: _rt(wfunc(*wargs, **wkw)), callback, error_callback)
+
+    def map_async(self, func, iterable, chunksize=None, callback=None, error_callback=None):
+        gen = self._imap(func, list(iterable), chunksize or 1, True)
+        return self._submit(lambda: list(gen), callback, error_callback)
+
+    def starmap_async(self, func, iterable, chunksize=None, callback=None, error_callback=None):
+        gen = self._imap(func, list(iterable), chunksize or 1, True, star=True)
+        return self._submit(lambda: list(gen), callback, error_callback)
+
+    def _submit(self, thunk, callback, error_callback):
+        r = SimAsyncResult(self, thunk, callback, error_callback)
+        self._pending.append(r)
+        self.sim.stats.async_jobs += 1
+        return r
+
+    def _drain(self, target=None):
+        while self._pending and (target is None or not target.done):
+            if self.state == "TERMINATE":
+                self._pending.clear()
+                return
+            r = self._pending.pop(self.sim.tape.choose(len(self._pending)))
+            self.sim.stats.events += 1
+            r._run()
+
+    def __getattr__(self, name):
+        if name.startswith("__"):
+            raise AttributeError(name)
+        raise self.sim.unmodelled_call(f"Pool.{name}")
+
     # -------------------------------------------------------------------------------
-    def _imap(self, func, iterable, chunksize, ordered):
+    def _imap(self, func, iterable, chunksize, ordered, star=False):
         if self.state != "RUN":
             raise ValueError("Pool not running")
         if chunksize < 1:
             raise ValueError("Chunksize must be 1+, not {0:n}".format(chunksize))
         # the function travels to the workers by pickle; iter() on the input happens in the caller
         wfunc = _rt(func)
+        if star:
+            inner = wfunc
+            wfunc = lambda a: inner(*a)  # noqa: E731
         it = iter(iterable)
         return self._run(wfunc, it, chunksize, ordered)
 
@@ -207,6 +255,43 @@ class SimPool:
                 yield item
 
 
+class SimAsyncResult:
+    def __init__(self, pool, thunk, callback, error_callback):
+        self.pool, self.thunk, self.callback, self.error_callback = pool, thunk, callback, error_callback
+        self.done = False
+        self.value = self.exc = None
+
+    def _run(self):
+        try:
+            self.value = self.thunk()
+        except Exception as e:  # noqa
+            self.exc = e
+        self.done = True
+        if self.exc is None and self.callback is not None:
+            self.callback(self.value)
+        if self.exc is not None and self.error_callback is not None:
+            self.error_callback(self.exc)
+
+    def wait(self, timeout=None):
+        self.pool._drain(self)
+
+    def ready(self):
+        return self.done
+
+    def successful(self):
+        if not self.done:
+            raise ValueError("not ready")
+        return self.exc is None
+
+    def get(self, timeout=None):
+        self.pool._drain(self)
+        if not self.done:
+            raise HarnessError("result of a terminated pool requested")
+        if self.exc is not None:
+            raise self.exc
+        return self.value
+
+
 class SimContext:
     def __init__(self, sim, kind):
         self.sim, self.kind = sim, kind
@@ -224,6 +309,13 @@ class PoolSim:
         self.event_budget = event_budget
         self.stats = PoolStats()
         self.dataloaders = 0
+        self.unmodelled = []
+
+    def unmodelled_call(self, what):
+        """Concurrency the simulator does not model was requested: the run ends as a harness error
+        (exit 2) whatever the code under test does with the exception returned here."""
+        self.unmodelled.append(what)
+        return HarnessError(f"{what} is not modelled by SimPool")
 
     @contextlib.contextmanager
     def patched(self):
@@ -246,29 +338,61 @@ class PoolSim:
             sim.dataloaders += 1
             return SimDataLoader(dataset, *a, **k)
 
+        import concurrent.futures as cf
+        import multiprocessing as mp
+        import threading
+
+        def refuse(what):
+            def f(*a, **k):
+                raise sim.unmodelled_call(what)
+
+            return f
+
+        others = [(mp, "Pool", Pool), (mp, "get_context", get_context), (mp, "Process", refuse("multiprocessing.Process")),
+                  (cf, "ProcessPoolExecutor", refuse("concurrent.futures.ProcessPoolExecutor")), (cf, "ThreadPoolExecutor", refuse("concurrent.futures.ThreadPoolExecutor")),
+                  (threading.Thread, "start", refuse("threading.Thread.start"))]
+        saved_others = [(o, n, getattr(o, n)) for o, n, _ in others]
+        for o, n, v in others:
+            setattr(o, n, v)
         tmp.Pool, tmp.get_context, tud.DataLoader = Pool, get_context, DataLoader
         try:
             yield self
         finally:
             tmp.Pool, tmp.get_context, tud.DataLoader = saved
+            for o, n, v in saved_others:
+                setattr(o, n, v)
+            if sim.unmodelled:
+                raise HarnessError(f"the code under test used concurrency that SimPool does not model: {sorted(set(sim.unmodelled))}")
 
 
 class SimDataLoader:
     """Stub for DataLoader(num_workers > 0): in-order delivery of pickled items (torch's
     in-order contract is assumed, not tested)."""
 
-    def __init__(self, dataset, batch_size=1, shuffle=False, collate_fn=None, **kw):
-        if shuffle or batch_size not in (1, None):
-            raise HarnessError("SimDataLoader models batch_size=1, shuffle=False only")
-        self.dataset, self.collate_fn, self.batch_size = _rt(dataset), collate_fn, batch_size
+    def __init__(self, dataset, batch_size=1, shuffle=False, collate_fn=None, drop_last=False, sampler=None, batch_sampler=None, **kw):
+        if shuffle or sampler is not None or batch_sampler is not None:
+            raise HarnessError("SimDataLoader models sequential, unshuffled loading only")
+        self.dataset, self.collate_fn, self.batch_size, self.drop_last = _rt(dataset), collate_fn, batch_size, drop_last
 
     def __len__(self):
-        return len(self.dataset)
+        n = len(self.dataset)
+        if self.batch_size is None:
+            return n
+        return n // self.batch_size if self.drop_last else -(-n // self.batch_size)
 
     def __iter__(self):
+        from torch.utils.data import default_collate
+
+        collate = self.collate_fn or default_collate
+        batch = []
         for i in range(len(self.dataset)):
             item = _rt(self.dataset[i])
             if self.batch_size is None:
                 yield item
-            else:
-                yield self.collate_fn([item]) if self.collate_fn else [item]
+                continue
+            batch.append(item)
+            if len(batch) == self.batch_size:
+                yield collate(batch)
+                batch = []
+        if batch and not self.drop_last:
+            yield collate(batch)
